@@ -136,6 +136,10 @@ impl Tokens
 		// For tokens, we want to avoid the realloc at all costs.
 		// If the source is very big, we expect a density of less than 50%.
 		let hard_token_cap = std::cmp::max(source_len / 2, 1 << 16);
+		// Verification hook: a small floor keeps the buffers within reach of
+		// a bounded model checker; capacity is monotone in the floor.
+		#[cfg(feature = "verif_small_buffers")]
+		let hard_token_cap = std::cmp::max(source_len / 2, 1 << 5);
 		let token_cap = std::cmp::min(hard_token_cap, MAX_NUM_TOKENS);
 		let tokens = Vec::with_capacity(token_cap);
 		let token_vaps = Vec::with_capacity(token_cap);
@@ -143,6 +147,8 @@ impl Tokens
 
 		// Don't pre-allocate too many payloads. We will rescale these.
 		let soft_payload_cap = std::cmp::max(source_len / 64, 1024);
+		#[cfg(feature = "verif_small_buffers")]
+		let soft_payload_cap = std::cmp::max(source_len / 64, 1 << 5);
 		let payload_cap = std::cmp::min(soft_payload_cap, MAX_NUM_PAYLOADS);
 		let mut integer_payloads = Vec::with_capacity(payload_cap);
 		// PayloadId(0) means no payload.
@@ -549,6 +555,13 @@ impl Tokens
 			}
 			_ => format!("<{base_token:?} />"),
 		}
+	}
+
+	/// Verification hook: the raw lexing errors, without building [Errors].
+	#[cfg(feature = "verif")]
+	pub fn verif_lexing_errors(&self) -> &[(LexingError, TokenId)]
+	{
+		&self.errors
 	}
 
 	pub fn errors(&self) -> Option<Errors>
